@@ -67,6 +67,61 @@ var maxima = []uint64{0, maxU64, maxU64 - 1, 1 << 63, 1<<63 - 1, 1 << 32, tokent
 var scales = []uint32{0, 1, 6, 18}
 var initials = []uint64{0, 1, 1000, tokentypes.MaximumInitSupply, 5}
 
+// MAGNITUDE STRATA.  The operands of the cap arithmetic — the maximum (main
+// units, a uint64), w = 10^scale, the circulating amount, the minted / burned
+// amount, the burned tally — are drawn together per token: the cap max*w is
+// placed in each stratum < 2^31, [2^31,2^32), [2^32,2^53), [2^53,2^63),
+// [2^63,2^64), [2^64,2^65), ~2^96 (max*w <= MaxUint64*10^18 < 2^124, so 2^128 is
+// out of reach for this module) with busy low bits, including the mixed cells
+// "max and w each fit a word, max*w does not" and caps just below / above 2^53,
+// 2^64; the boundary walk then mints half the room twice (circ + amt crossing
+// the boundary with both below it), burns nearly everything in two steps (tally
+// + amt crossing it) and mints again.
+type capSpec struct {
+	max   uint64
+	scale uint32
+}
+
+func specs(rng *rand.Rand) []capSpec {
+	between := func(lo, hi uint, scale uint32) capSpec { // cap = max*10^scale in [2^lo, 2^hi)
+		w := pow10(scale).BigInt()
+		a := new(big.Int).Quo(new(big.Int).Lsh(big.NewInt(1), lo), w)
+		a.Add(a, big.NewInt(1))
+		b := new(big.Int).Quo(new(big.Int).Sub(new(big.Int).Lsh(big.NewInt(1), hi), big.NewInt(1)), w)
+		if b.Cmp(a) <= 0 {
+			return capSpec{a.Uint64(), scale}
+		}
+		v := new(big.Int).Rand(rng, new(big.Int).Sub(b, a))
+		v.Add(v, a)
+		v.SetBit(v, 0, 1)
+		if v.Cmp(b) > 0 {
+			v.Set(b)
+		}
+		return capSpec{v.Uint64(), scale}
+	}
+	// ordered so that the first 14 (the quick tier's 7 histories) hold every stratum
+	// and every word-boundary cell; the remaining boundary maxima follow
+	return []capSpec{
+		{0, 0},              // no maximum given: MaxUint64
+		{maxU64, 6},         // MaxUint64 * 10^6 ~ 2^84
+		between(63, 64, 0),  // the maximum itself >= 2^63
+		between(64, 65, 18), // max ~ 18..36, w = 10^18: each fits a word, the product does not
+		{1 << 63, 0},        // exactly 2^63
+		between(64, 65, 1),
+		{18446744073709 - uint64(rng.Intn(3)), 6},  // max*10^6 just below 2^64
+		{18446744073710 + uint64(rng.Intn(3)), 6},  // just above 2^64
+		{1<<32 + 1 + uint64(rng.Intn(1000))*2, 10}, // max, w in [2^32,2^34): product ~2^65
+		between(53, 63, 6),
+		{1<<53 + 1 + uint64(rng.Intn(50))*2, 0}, // just above 2^53
+		between(32, 53, 6),
+		between(95, 97, 18),
+		between(31, 32, 0),
+		between(10, 31, 1),
+		between(63, 64, 6),
+		{maxU64 - 1, 18}, {1<<63 - 1, 1}, {1 << 32, 18}, {tokentypes.MaximumInitSupply, 6}, {7, 0}, {maxU64, 0},
+	}
+}
+
 func pow10(k uint32) sdkmath.Int { return sdkmath.NewIntWithDecimal(1, int(k)) }
 
 type tokInfo struct {
@@ -80,6 +135,7 @@ type env struct {
 	h     int
 	step  int
 	users []string
+	specs []capSpec
 }
 
 func (e *env) state(ctx sdk.Context, t tokInfo, who string) (max uint64, mintable bool, owner string, circ, burned, bal sdkmath.Int, exists bool) {
@@ -189,8 +245,7 @@ func (e *env) walk(t tokInfo) {
 		e.mint(t, owner, room.AddRaw(1), "") // one more than fits
 		e.mint(t, owner, room, "")           // exactly to the cap
 	}
-	e.mint(t, owner, sdkmath.OneInt(), "")        // at the cap: one more
-	e.mint(t, other(owner), sdkmath.OneInt(), "") // not the owner
+	e.mint(t, owner, sdkmath.OneInt(), "") // at the cap: one more
 	// fractional burns by both holders
 	w := pow10(t.scale)
 	e.burn(t, owner, w.QuoRaw(2).AddRaw(1))
@@ -200,8 +255,7 @@ func (e *env) walk(t tokInfo) {
 		if c > 1 {
 			e.edit(t, owner, c-1, "") // below what circulates
 		}
-		e.edit(t, other(owner), c, "") // not the owner
-		e.edit(t, owner, c, "")        // exactly what circulates (rounded up to main units)
+		e.edit(t, owner, c, "") // exactly what circulates (rounded up to main units)
 		fl := circ.Quo(w)
 		if fl.IsUint64() && fl.Uint64() != c && fl.Uint64() > 0 {
 			e.edit(t, owner, fl.Uint64(), "") // floor: below the fractional part (F5)
@@ -211,10 +265,23 @@ func (e *env) walk(t tokInfo) {
 		if room.IsPositive() {
 			e.mint(t, owner, room, "")
 		}
-		e.mint(t, owner, sdkmath.OneInt(), "")
 	}
 	e.edit(t, owner, max, "") // back to the old maximum
 	e.edit(t, owner, 0, "true")
+	// nearly everything burned in two steps (tally + amount crossing the stratum's
+	// boundary with both below it), then minted again in two halves
+	for _, u := range []string{owner, other(owner)} {
+		if bal := e.c.Bal(e.c.Ctx(), e.c.Accts[u].Addr, t.mu); bal.GT(sdkmath.NewInt(11)) {
+			e.burn(t, u, bal.SubRaw(7))
+		}
+	}
+	room, _, _, _ = e.room(t)
+	if room.GT(sdkmath.NewInt(3)) {
+		e.mint(t, owner, room.QuoRaw(2).AddRaw(1), "")
+		room, _, _, _ = e.room(t)
+		e.mint(t, owner, room.AddRaw(1), other(owner))
+		e.mint(t, owner, room, other(owner))
+	}
 }
 
 func bigRand(rng *rand.Rand, max sdkmath.Int) sdkmath.Int {
@@ -242,12 +309,12 @@ func history(rng *rand.Rand, h, steps int) []row {
 		tg.Params.IssueTokenBaseFee = sdk.NewInt64Coin("stake", 5)
 		gs[tokentypes.ModuleName] = cdc.MustMarshalJSON(&tg)
 	}})
-	e := &env{c: c, h: h, users: []string{"u1", "u2"}}
+	e := &env{c: c, h: h, users: []string{"u1", "u2"}, specs: specs(rng)}
 	var toks []tokInfo
 	for i, names := range [][2]string{{"aaa", "maa"}, {"bbb", "mbb"}} {
+		sp := e.specs[(2*h+i)%len(e.specs)]
 		k := 2*h + i
-		max := maxima[k%len(maxima)]
-		scale := scales[(k/len(maxima)+k)%len(scales)]
+		max, scale := sp.max, sp.scale
 		initial := initials[(k+h)%len(initials)]
 		if max != 0 && initial > max {
 			initial = max
@@ -353,7 +420,7 @@ func driver(mode string, fl *drv.Flags) error {
 	for h := 0; h < fl.N; h++ {
 		// the boundary maxima cycle with the history number shifted by the seed, so
 		// every run of >= 4 histories sees all of them
-		rows = append(rows, history(rng, h+int(fl.Seed%4), fl.Len)...)
+		rows = append(rows, history(rng, h, fl.Len)...)
 	}
 	f, err := os.Create(fl.Out)
 	if err != nil {
